@@ -2,6 +2,7 @@
 from __future__ import annotations
 
 import copy
+import threading
 import pickle
 
 import optuna
@@ -239,6 +240,16 @@ class SnapBackend(ListBackend, BaseJournalSnapshot):
         return self.snap
 
 
+class _ThreadingIdent1:
+    """threading with get_ident() pinned to 1, so that worker ids are prefix + '1' like the record alphabet's 'workerA-1'"""
+
+    def __getattr__(self, name):
+        return getattr(threading, name)
+
+    def get_ident(self):
+        return 1
+
+
 def snapshot_body():
     kind = sx.choose([1, 2], "seed")
     seed = seed_log(kind)
@@ -258,13 +269,21 @@ def snapshot_body():
         blob = {"pickle": None, "garbage": b"not a pickle", "foreign-object": pickle.dumps({"x": 1}), "none": None}[blob_kind]
         if blob_kind == "pickle":
             R0.__class__ = JournalStorageReplayResult
+            # the snapshot carries its writer's identity: worker_id = prefix + thread ident (the ident is pinned to 1 below, and the
+            # restoring storage runs on the same thread ident, as forked workers do)
+            R0._worker_id_prefix = snapper[:-1]
             blob = pickle.dumps(R0)
     else:
         sx.cur().abort()
     be = SnapBackend()
     be.logs = copy.deepcopy(log)
     be.snap = blob
-    S = JournalStorage(be)                      # restores the snapshot (if usable) and replays the tail
+    import optuna.storages.journal._storage as js_mod
+    js_mod.threading = _ThreadingIdent1()
+    try:
+        S = JournalStorage(be)                  # restores the snapshot (if usable) and replays the tail: must not raise
+    finally:
+        js_mod.threading = threading
     # reference: full replay by a third identity
     ref = new_replayer("ref-1")
     for rec in log:
